@@ -66,6 +66,17 @@ def strata(tier):
                           {"c": root, "a": NULL, "b": NULL}):
                     for via in ("op", "spec"):
                         yield {"mode": "tree", "via": via, "container": cont, "tree": t}
+    # long chains (many operands of one operator, left- and right-nested, also as one long spec list)
+    for j in range(12 if tier == "quick" else 60):
+        rng = G.rng_for("C02-long", j)
+        cont = PROBE_LIST if j % 2 else PROBE_MAP
+        kinds = ["value", "index"] if j % 2 else ["value", "key"]
+        op = OPS[j % 3]
+        leaves_ = [_leaf(rng, kinds, cont) for _ in range(25 + j)]
+        t = leaves_[0]
+        for x in leaves_[1:]:
+            t = {"c": op, "a": t, "b": x} if j % 4 < 2 else {"c": op, "a": x, "b": t}
+        yield {"mode": "tree", "via": "spec" if j % 2 else "op", "container": cont, "tree": t}
     for j in range(40 if tier == "quick" else 200):
         yield gen_history(G.rng_for("C02-hist", j), 30 if tier == "quick" else 120)
 
